@@ -19,6 +19,10 @@ def gen_tables(rng, profile):
     elif profile == "faults":
         kinds = [rng.weighted([("playable", 4), ("refuse", 2), ("nouri", 1), ("raises", 1), ("nobackend", 1)])
                  for _ in range(NTRACKS)]
+    elif profile == "settledf":
+        # settled schedules over a tracklist with some unplayable entries (C03: skipping)
+        kinds = [rng.weighted([("playable", 6), ("refuse", 1.5), ("nouri", 0.5), ("raises", 0.5), ("nobackend", 0.5)])
+                 for _ in range(NTRACKS)]
     elif profile in ("settled", "restore"):
         kinds = ["playable"] * NTRACKS
         if profile == "restore" and rng.random() < 0.2:
@@ -27,11 +31,11 @@ def gen_tables(rng, profile):
         kinds = [rng.weighted([("playable", 8), ("refuse", 1), ("nouri", 0.5), ("raises", 0.5), ("nobackend", 0.5)])
                  for _ in range(NTRACKS)]
     lens = [rng.weighted([(None, 1), (1000, 3), (5000, 2), (1, 0.5)]) for _ in range(NTRACKS)]
-    if profile == "settled":
+    if profile in ("settled", "settledf"):
         lens = [x if x is not None or rng.random() < 0.3 else 3000 for x in lens]
     if profile == "restore":
         lens = [None if rng.random() < 0.25 else (x or 3000) for x in lens]
-    if profile == "settled":
+    if profile in ("settled", "settledf"):
         lens = [1000 if x == 1 else x for x in lens]
     if profile == "faults":
         # runs of refusals and acceptances, so that a track can be refused several times in a row
@@ -40,7 +44,7 @@ def gen_tables(rng, profile):
             script += [rng.random() < 0.5] * rng.randint(1, 4)
         if rng.random() < 0.1:
             script += [True] * 900   # a backend that refuses everything from some point on
-    elif profile in ("settled",):
+    elif profile in ("settled", "settledf"):
         script = []
     else:
         script = [rng.random() < 0.15 for _ in range(rng.randint(0, 6))]
@@ -74,8 +78,10 @@ def gen_op(rng, sim, weights):
     if k == "add":
         cnt = rng.weighted([(1, 4), (2, 3), (3, 2), (0, 0.5), (5, 0.5)])
         ts = [rng.randrange(NTRACKS) for _ in range(cnt)]
+        if rng.random() < 0.06:
+            ts.insert(rng.randint(0, len(ts)), -1)    # something that is not a Track, anywhere in the list
         pos = None if rng.random() < 0.5 else gen_pos(rng, n)
-        ok = pos is None or pos >= 0
+        ok = (pos is None or pos >= 0) and -1 not in ts
         if ok:
             sim.tlids += list(range(sim.next_tlid, sim.next_tlid + cnt))
             sim.next_tlid += cnt
@@ -193,21 +199,83 @@ def generate_and_run(rng, profile, max_client_ops=None):
 
     try:
         if max_client_ops is None:
-            max_client_ops = {"settled": 14, "restore": 16}.get(profile, 30)
+            max_client_ops = {"settled": 14, "settledf": 14, "restore": 16}.get(profile, 30)
         nops = rng.randint(3, max_client_ops)
-        base = "schedule" if profile == "settled" else profile
+        is_settled = profile in ("settled", "settledf")
+        base = "schedule" if is_settled else profile
         weights = WEIGHTS[base]
-        if profile == "settled":
+        if is_settled:
             weights = [(k, w) for k, w in weights if k not in ("deliver", "load", "save")]
         if rng.random() < 0.85:
-            cnt = rng.randint(1, 7 if profile != "tracklist" else 5)
+            hi = 7 if profile != "tracklist" else 5
+            # short tracklists (one or two entries) are where wrap-around and self-succession live
+            cnt = rng.choice([1, 1, 2]) if rng.random() < 0.3 else rng.randint(1, hi)
             do(["add", [rng.randrange(NTRACKS) for _ in range(cnt)], None])
-        for which in range(4):
+        if rng.random() < 0.3:
+            mask = rng.randrange(16)       # every mode combination equally likely
+            for which in range(4):
+                if mask >> which & 1:
+                    do(["setmode", which, True])
+        else:
+            for which in range(4):
+                if rng.random() < 0.3:
+                    do(["setmode", which, True])
+        if profile == "schedule" and rng.random() < 0.12:
+            # a session that starts with a restored play history
+            do(["sethistory", [rng.randrange(NTRACKS) for _ in range(rng.choice([1, 2, 3, 4, 7]))]])
+        if profile in ("schedule", "restore") and rng.random() < 0.12 and sim.n:
+            # the stream ran past the length recorded for the last entry, then the session is
+            # saved and restored in a new process
+            do(["play", sim.tlids[-1]])
+            settle()
             if rng.random() < 0.3:
-                do(["setmode", which, True])
+                do(["pause"])
+                settle()
+            do(["tick", rng.choice([250, 999])])
+            do(["tick", rng.choice([999, 999, 10])])
+            do(["tick", 999]); do(["tick", 999]); do(["tick", 999]); do(["tick", 999])
+            do(["save"])
+            do(["load", [True] * 5 if rng.random() < 0.7 else [rng.random() < 0.7 for _ in range(5)]])
+            for _ in range(rng.randint(0, 8)):
+                do(["deliver"])
+        if profile == "faults" and rng.random() < 0.3:
+            if rng.random() < 0.5:
+                do(["setmode", 0, True])   # consume: refused entries leave the list while the loops run
+            # the backend dies under a running player: a track that was accepted is refused from
+            # now on, in whatever state the player is (static script: accept what was accepted
+            # so far, refuse everything afterwards)
+            do(["play", None if rng.random() < 0.5 else sim.some_tlid(rng, 0.9)])
+            settle()
+            for _ in range(rng.randint(0, 2)):
+                do(gen_op(rng, sim, weights))
+                if rng.random() < 0.7:
+                    settle()
+            used = len(runner.env.attempts)
+            orig = case["script"]
+            case["script"] = (orig[:used] + [False] * max(0, used - len(orig))) + [True] * 900
+            runner.env.script = [True] * 900
+            for _ in range(rng.randint(2, 5)):
+                if rng.random() < 0.8:
+                    do(rng.choice([["previous"], ["next"], ["atf"], ["play", None], ["seek", 6000],
+                                   ["seek", 0], ["previous"], ["next"]]))
+                else:
+                    do(gen_op(rng, sim, weights))
+                if rng.random() < 0.5:
+                    settle()
+        if profile == "settledf" and rng.random() < 0.35:
+            # walk through a whole pass with next(): the end of a (random) pass over a list with
+            # unplayable entries
+            if rng.random() < 0.7 and not runner.core.tracklist.get_random():
+                do(["setmode", 1, True])
+            do(["play", None])
+            settle()
+            for _ in range(sim.n + 1):
+                do(["getnext"])
+                do(["next"])
+                settle()
         for _ in range(nops):
             op = gen_op(rng, sim, weights)
-            if profile == "settled":
+            if is_settled:
                 if op[0] == "seek" and rng.random() < 0.85:
                     op = ["seek", rng.choice([0, 1, 500, 999, 1000])]
                 if op[0] in ("remove", "clear") and rng.random() < 0.6:
@@ -230,7 +298,7 @@ def generate_and_run(rng, profile, max_client_ops=None):
                     settle()
                     continue
             do(op)
-            if profile == "settled":
+            if is_settled:
                 settle()
         if profile == "restore":
             if rng.random() < 0.3:
